@@ -334,7 +334,7 @@ def stepLineA (s : ASess) (line : String) : ASess × String :=
     match parseNat? id with
     | none => (s, "err BAD-LINE")
     | some id =>
-      if outs.any (handleLive s) then (s, "err BAD-HANDLE") else
+      if outs.any (handleLive s) || !(decide outs.Nodup) then (s, "err BAD-HANDLE") else
       match op, args, outs with
       | "a_new", rest, [] =>
         match (match rest with
